@@ -54,6 +54,7 @@ fn concretise(c: &Value, rng: &mut Rng) -> Opts {
 		.map(|s| match s.as_str().unwrap() {
 			"dns" => (format!("{}.example.test", random_text("printable", rng, 6).replace(|c: char| !c.is_ascii_alphanumeric(), "x")), None),
 			"dns-trailing-dot" => ("host.example.test.".to_string(), None),
+			"at-sign" => ("user@host.example.test".to_string(), None),
 			"ip4" => {
 				let b = rng.bytes(4);
 				(format!("{}.{}.{}.{}", b[0], b[1], b[2], b[3]), Some(b))
@@ -127,7 +128,7 @@ pub fn run_cases(cases_path: &str, out_path: &str, bin: &str, workdir: &str) {
 	if std::env::var("VERIF_TIER").map(|t| t == "thorough").unwrap_or(false) {
 		let mut r = Rng::new(seed ^ 0xc18);
 		let algs = ["$default", "ed25519", "ecdsa-p256", "ecdsa-p384", "rsa", "ecdsa-p521"];
-		let sans = ["dns", "ip4", "ip6", "nonascii", "dns-trailing-dot", "ip4-mapped"];
+		let sans = ["dns", "ip4", "ip6", "nonascii", "dns-trailing-dot", "ip4-mapped", "at-sign"];
 		let countries = ["$default", "printable-all", "printable-question", "nonprintable-gt", "nonprintable-at", "nonascii", "empty"];
 		let cns = ["$default", "utf8", "empty", "printable-question", "padded", "nbsp-padded", "tab-newline-padded"];
 		let names = [["$default", "$default"], ["leaf", "ca"], ["www.example.org", "example.org.ca"], ["site.leaf", "site.ca"], ["with space", "root ca"], ["a.b.c", "a.b.d"], ["Gateway", "gateway"]];
